@@ -145,6 +145,19 @@ CHECKS = {
             'inlinable primitive used as generation root (emitted with an explicit out-of-scope warning) is not a design.',
             'TLC evaluation of a static-semantics specification over parsed emitted files',
             'DESIGN.md section 4, C03'),
+    'C01': ('translation_validation',
+            'For every design (each catalogued library block inside a structural top at several widths/parameters, covering inlined '
+            'assigns, BodyReg, shared named modules and per-instance modules; seeded compositions with hierarchy, fan-out, feedback '
+            'through registers, repeated kinds, optionally two ports of one instance on one wire) the emitted text is parsed (syntax '
+            'only) and EXECUTED by TLC under VerilogSem.tla: IEEE 1364 expression sizing/signedness on limb vectors, continuous-'
+            'assignment fixpoint, non-blocking register update, initial values, hierarchy flattened inside the specification with '
+            'definitions looked up by name. The real simulator runs the same design from power-up (all input vectors for small '
+            'combinational designs, seeded random sequences otherwise); every top-level output is compared at power-up and after '
+            'every edge. Division/modulo by zero is not compared.',
+            'VerilogSem is a transcription of IEEE 1364-2005 for the emitted subset (two-state); no third-party Verilog simulator '
+            'exists in the sandbox to cross-check it; its limb arithmetic is self-checked by TLC against integer arithmetic.',
+            'per-design translation validation: TLC executes the emitted Verilog (VerilogSem.tla) against recorded simulator runs',
+            'DESIGN.md section 4, C01'),
 }
 
 PENDING = {}
